@@ -114,6 +114,10 @@ def main(tier, write_baseline=False):
     run = Run("C06", tier, "other", checker_cmd=common.checker_cmd("C06", tier))
     run.trusted_base.update(["cddvc E1 (records with presence bits, Seq view of `required`)", "z3 5.1"])
     refuted = e1.run_contracts(run, "contracts.C06")
+    # fold lemma (Lean 4 kernel): with the callee contract above and side conditions S1-S4, `required` is the list of
+    # the non-Optional parameter names in order, for parameter lists of any length
+    common.lean_theorems(run, "C06", "C06.lean", ("required_is_filter", "required_iff_not_optional"))
+    run.trusted_base.add("Lean 4.33 kernel (lean/C06.lean, no Mathlib): the fold lemma; that dict(map(f, xs)) is that fold rests on S1-S4 (rule engine) and on CPython evaluating map lazily in order")
     if write_baseline:
         common.write_baseline("C06", [n for n, o in run.obligations.items() if o["status"] == "proved"])
     compare_baseline(run, set(run.obligations))
@@ -138,7 +142,7 @@ def main(tier, write_baseline=False):
     for kind, (ir, what) in fails.items():
         run.violation("C06/bounded/%s" % kind, what, key={"kind": kind}, failing_input={"ir": json.loads(json.dumps(ir, default=str))})
     common.apply_controls(run, tier)
-    return run.finish(explanation="PROVED (lemma, all inputs): required-iff-not-Optional, frame on `required`, doc->description, typ key removed — for param2json_schema_property. "
+    return run.finish(explanation="PROVED (all inputs, any number of parameters): `required` of json_schema() is exactly the non-Optional parameter names in declaration order = callee contract of param2json_schema_property (E1) + fold lemma (Lean) + fold-shape side conditions S1-S4 (rule engine); also doc->description, typ key removed. "
                       "BOUNDED only: meta-schema validity, defaults against their property schema, Literal patterns, serialisability, parse-back equality.")
 
 
